@@ -1654,7 +1654,8 @@ impl<'a> Exec<'a> {
         // honest rollbacks (k <= 100) are clamped to the history; larger k are abusive on purpose
         let k = if k <= 100 { k.min(n) } else { k };
         let eos_all = self.ctx.world.eos_all();
-        let over_eos = k > 0 && k <= n && s.hist[n - k..].iter().any(|t| eos_all.contains(t));
+        let kk = if reset { n } else { k };
+        let over_eos = kk > 0 && kk <= n && s.hist[n - kk..].iter().any(|t| eos_all.contains(t));
         let m = match &mut s.h {
             H::M(m) => m,
             _ => return Ok(()),
@@ -1694,6 +1695,20 @@ impl<'a> Exec<'a> {
                     }
                 }
                 self.ev(format!("rollback h{h} {keff} ok"));
+                if keff > 0 && over_eos && self.ctx.tokref && self.fault_free_or_c20() {
+                    // known finding F5: an end-of-sequence id that the *grammar* consumed as a special
+                    // token (<[id]> / <|name|>) is rolled back as 0 bytes. Only grammars that reference
+                    // special tokens can do that; for them the comparison with the fresh engine is made
+                    // right here and carries its own signature (everywhere else rollback over EOS is
+                    // judged by the ordinary oracles).
+                    if let Err(mut v) = self.chk_fresh(h) {
+                        if v.oracle == "fresh_equivalence" {
+                            v.signature = "rollback_over_grammar_eos".into();
+                            v.detail = format!("after rolling back over an end-of-sequence id in a grammar with special-token references: {}", v.detail);
+                        }
+                        return Err(v);
+                    }
+                }
                 Ok(())
             }
             Err(e) => {
@@ -1704,6 +1719,10 @@ impl<'a> Exec<'a> {
                 self.on_matcher_err(h, "rollback", &e.to_string(), legal)
             }
         }
+    }
+
+    fn fault_free_or_c20(&self) -> bool {
+        self.fault_free() || self.ctx.sc.property == "C20"
     }
 
     fn op_trigger_panic(&mut self, h: SlotId) -> VResult<()> {
